@@ -102,7 +102,12 @@ def run(ctx):
     cases = families(ctx)
     texts = [t for _f, t in cases]
     t0 = time.time()
-    real = C01.run_real(bindir, texts)
+    real = C01.run_real(bindir, texts, watchdog_ms=(4000 if ctx.quick else 10000), budget={"left": 25})
+    # a watchdog hit is confirmed with a long limit before it counts (a loaded machine must not raise an alarm)
+    confirm_ms = 40000
+    for i, r in enumerate(real):
+        if "timeout" in r:
+            real[i] = C01.run_real(bindir, [texts[i]], timeout=120, watchdog_ms=confirm_ms)[0]
     t_real = time.time() - t0
     t0 = time.time()
     model = synlib.model_lines(exe, "parse", texts, timeout=1500)
@@ -112,6 +117,8 @@ def run(ctx):
     oracle_fail, corr_fail, model_bad = [], [], []
     max_ratio, max_ratio_model, nerr, sigs = 0.0, 0.0, 0, set()
     for (fam, t), r, m, nt in zip(cases, real, model, ntoks):
+        if "skipped" in r:
+            continue
         nt = nt if nt is not None else len(t)
         why = total_oracle(t, r, nt)
         if why:
@@ -136,8 +143,8 @@ def run(ctx):
             pass
 
     def still_fails(cands):
-        rs = C01.run_real(bindir, cands, timeout=120)
-        return [synlib.errors_oracle(c, r) is not None for c, r in zip(cands, rs)]
+        rs = C01.run_real(bindir, cands, timeout=120, watchdog_ms=5000, budget={"left": 3})
+        return [("skipped" not in r) and synlib.errors_oracle(c, r) is not None for c, r in zip(cands, rs)]
 
     found, reported = False, set()
     for fam, t, why in oracle_fail[:40]:
@@ -145,7 +152,7 @@ def run(ctx):
         if small in reported:
             continue
         reported.add(small)
-        r = C01.run_real(bindir, [small], timeout=120)[0]
+        r = C01.run_real(bindir, [small], timeout=120, watchdog_ms=40000)[0]
         nt = raw_token_counts(exe, [small])[0] or len(small)
         why_small = total_oracle(small, r, nt) or why
         m = synlib.model_lines(exe, "parse", [small])[0]
